@@ -76,6 +76,19 @@ def check_count(text):
     return 'def gbCheckCount : Nat := %d' % n
 
 
+def scalar_io_flag(name, typed_re, raw_re, doc):
+    """Bool: are max_field / max_index written / read through the typed Stream::Write<T> / Read<T> (repair C15-F2:
+    whole value or failure, stream byte order) rather than as raw memory (a short read counts as success)?"""
+    def run(text):
+        text = _strip(text)
+        a = re.search(typed_re, text) is not None
+        b = re.search(raw_re, text) is not None
+        if a == b:
+            raise ValueError('%s: cannot classify the source (typed=%s, raw=%s)' % (name, a, b))
+        return '-- %s: %s\ndef %s : Bool := %s' % (RB, doc, name, 'true' if a else 'false')
+    return {'name': name, 'file': RB, 'custom': run}
+
+
 ITEMS = [
     # ---- GetBlock ----------------------------------------------------------------------------
     X('gbLabelGuard', RB, GB, r'if \((label\.size\(\))\) \{\s*CHECK_EQ', [('label.size()', 'labelSize')], 'Bool'),
@@ -126,6 +139,14 @@ ITEMS = [
       r'CHECK\((rowid < size)\);', [('rowid', 'rowid'), ('size', 'size')], 'Bool'),
     X('rowLen', 'include/dmlc/data.h', r'RowBlock<IndexType, DType>::operator\[\]\(size_t rowid\) const \{',
       r'inst\.length = ([^;]+);', [('offset[rowid + 1]', 'offNext'), ('offset[rowid]', 'offCur')], 'Nat'),
+    # ---- Save / Load: the two scalar members (C15-F2) ----------------------------------------------
+    scalar_io_flag('saveScalarTyped', r'fo->Write\(max_field\);\s*fo->Write\(max_index\);',
+                   r'fo->Write\(&max_field, sizeof\(IndexType\)\);\s*fo->Write\(&max_index, sizeof\(IndexType\)\);',
+                   'Save writes max_field / max_index with Stream::Write<T>'),
+    scalar_io_flag('loadScalarTyped',
+                   r'CHECK\(fi->Read\(&max_field\)\)[^;]*;\s*CHECK\(fi->Read\(&max_index\)\)[^;]*;',
+                   r'CHECK\(fi->Read\(&max_field, sizeof\(IndexType\)\)\)[^;]*;\s*CHECK\(fi->Read\(&max_index, sizeof\(IndexType\)\)\)[^;]*;',
+                   'Load reads max_field / max_index with Stream::Read<T> (all bytes or failure)'),
     # ---- MemCostBytes / page condition ---------------------------------------------------------
     X('memCost', RB, r'inline size_t MemCostBytes\(void\) const \{', r'return ([^;]+);',
       [('offset.size()', 'nOffset'), ('label.size()', 'nLabel'), ('weight.size()', 'nWeight'),
